@@ -56,7 +56,29 @@ def dispatch_paths(fn):
     return enumerate_paths(fn, 0, on_call, on_stmt=on_stmt, follow_errors=True, max_paths=3000)
 
 
+def catch_all_variants(fn, enum_suffix):
+    """(number of matches on the enum in fn, variants that reach a catch-all arm of the first one)"""
+    sw = [b["t"] for b in fn.blocks if b["t"]["t"] == "switch" and (b["t"].get("variants") or {}).get("enum", "").endswith(enum_suffix)]
+    if not sw:
+        return 0, set()
+    names = sw[0]["variants"]["names"]
+    covered = {names[v] for v, _ in sw[0]["vals"] if v in names}
+    missing = set(names.values()) - covered
+    if missing and fn.blocks[sw[0]["else"]]["t"]["t"] != "unreach":
+        return len(sw), missing
+    return len(sw), set()
+
+
+def dispatch_controls(ck):
+    import core
+    n, missing = catch_all_variants(core.fixture_fn("pos_dispatch_with_catch_all"), "Algebra")
+    ck.control("R13.1", "pos_dispatch_with_catch_all", n == 1 and missing == {"Minus", "Service"})
+    n, missing = catch_all_variants(core.fixture_fn("neg_dispatch_explicit"), "Algebra")
+    ck.control("R13.1", "neg_dispatch_explicit", n != 1 or bool(missing), expect=False)
+
+
 def select_rule(ck, facts):
+    dispatch_controls(ck)
     fn = find_one(ck, facts, "R13.1", r"exec::ExecState::<'a, D>::select$", "ExecState::select")
     if fn is None:
         return
@@ -66,10 +88,8 @@ def select_rule(ck, facts):
         ck.bad("R13.1", "R13.1@select#switch", "expected one match on GraphPattern in select (found %d)" % len(sw), fn.loc)
         return
     names = sw[0]["variants"]["names"]
-    covered = {names[v] for v, _ in sw[0]["vals"] if v in names}
-    other = fn.blocks[sw[0]["else"]]["t"]["t"]
-    missing = set(names.values()) - covered
-    if missing and other != "unreach":
+    missing = catch_all_variants(fn, "GraphPattern")[1]
+    if missing:
         ck.bad("R13.1", "R13.1@select#catch-all", "GraphPattern variants %s fall into a catch-all arm" % sorted(missing), fn.loc)
     unknown = set(names.values()) - set(SUPPORTED) - UNSUPPORTED
     if unknown:
@@ -159,9 +179,9 @@ def query_rule(ck, facts):
             ck.bad("R13.1", "R13.1@from_expr#switch", "expected one match on Expression (found %d)" % len(sw), fn.loc)
         else:
             names = sw[0]["variants"]["names"]
-            covered = {names[v] for v, _ in sw[0]["vals"] if v in names}
-            if set(names.values()) - covered and fn.blocks[sw[0]["else"]]["t"]["t"] != "unreach":
-                ck.bad("R13.1", "R13.1@from_expr#catch-all", "Expression variants %s fall into a catch-all arm" % sorted(set(names.values()) - covered), fn.loc)
+            missing = catch_all_variants(fn, "algebra::Expression")[1]
+            if missing:
+                ck.bad("R13.1", "R13.1@from_expr#catch-all", "Expression variants %s fall into a catch-all arm" % sorted(missing), fn.loc)
             else:
                 ck.ok("R13.1", "from_expr: all %d Expression variants matched explicitly" % len(names))
 
@@ -358,6 +378,7 @@ def run(ck, facts, tier):
     for f in sorted(core_fns, key=lambda x: x.id):
         sites += panics.sites_of(f)
     from tables.sparql_panics import TABLE
+    panics.controls(ck, "R13.4")
     panics.classify(facts, sites, TABLE)
     unarmed = 0
     for s in sites:
